@@ -194,16 +194,18 @@ CondOK(c, L, n) ==
 (* the markers a statement list must set: [ok |-> all conditions met on the way were inside the
    precondition, m |-> set of marker numbers] *)
 RECURSIVE ExecSeq(_, _, _, _, _)
+(* an "exit" statement ends the program: no statement after it runs, in whatever block it stands (done) *)
 ExecStmt(s, L, n, acc) ==
-    IF s.k = "mark" THEN [ok |-> acc.ok, m |-> acc.m \cup {s.i}]
-    ELSE IF ~CondOK(s.c, L, n) THEN [ok |-> FALSE, m |-> acc.m]
+    IF s.k = "mark" THEN [acc EXCEPT !.m = acc.m \cup {s.i}]
+    ELSE IF s.k = "exit" THEN [acc EXCEPT !.done = TRUE]
+    ELSE IF ~CondOK(s.c, L, n) THEN [acc EXCEPT !.ok = FALSE]
     ELSE IF CondVal(s.c, L, n) THEN ExecSeq(s.body, 1, L, n, acc)
     ELSE IF s.hasels THEN ExecSeq(s.els, 1, L, n, acc)
     ELSE acc
 ExecSeq(stmts, i, L, n, acc) ==
-    IF i > Len(stmts) \/ ~acc.ok THEN acc
+    IF i > Len(stmts) \/ ~acc.ok \/ acc.done THEN acc
     ELSE ExecSeq(stmts, i + 1, L, n, ExecStmt(stmts[i], L, n, acc))
-Exec(stmts, L, n) == ExecSeq(stmts, 1, L, n, [ok |-> TRUE, m |-> {}])
+Exec(stmts, L, n) == ExecSeq(stmts, 1, L, n, [ok |-> TRUE, m |-> {}, done |-> FALSE])
 (* classification for the C03 known finding: some comparison has an sw register holding a negative
    value on one side while the other side counts as 64 bits wide (an 8-byte operand or a bit field) *)
 RECURSIVE HasField(_)
